@@ -62,7 +62,7 @@ func hFromTemplate(t string) string {
 }
 
 // h18aTemplates: the id shapes beyond "every byte string up to n bytes". Order = cost/priority; the
-// parameter `tmpl` selects how many of them a tier uses.
+// parameter `a_tmpl` selects how many of them a tier uses.
 var h18aTemplates = []string{
 	// --- IP literals with and without port (dots raw or escaped, brackets raw or escaped)
 	hDig + "." + hDig + "." + hDig + "." + hDig,                 // 0  d.d.d.d
@@ -258,14 +258,14 @@ func hCheckURL(hid string, id string, u *url.URL) {
 
 // H18a: DIDToURL on every byte string up to n bytes and on the templates above.
 func H18a() {
-	n := vParam("n", 2)
-	nt := vParam("tmpl", 30)
+	n := vParam("a_n", 2)
+	nt := vParam("a_tmpl", 33)
 	if nt > len(h18aTemplates) {
 		nt = len(h18aTemplates)
 	}
 	var id string
 	k := vChoice(nt + 1)
-	if only := vParam("only", -1); only >= 0 {
+	if only := vParam("a_only", -1); only >= 0 {
 		vAssume(k == only) // development aid: a single family
 	}
 	if k == 0 {
